@@ -18,7 +18,7 @@ def sh(cmd, cwd=None, env=None, timeout=3600):
     p = subprocess.run(cmd, shell=True, cwd=cwd, env=e, capture_output=True, text=True, timeout=timeout)
     return p.returncode, p.stdout + p.stderr
 
-def one(seed, checks, threads):
+def one(seed, checks, threads, kind="seeded"):
     wt = f"/tmp/cross/{seed}"
     sh(f"git -C /repo worktree remove --force {wt}"); shutil.rmtree(wt, ignore_errors=True)
     rc, out = sh(f"git -C /repo worktree add --detach {wt} HEAD")
@@ -26,7 +26,7 @@ def one(seed, checks, threads):
         return seed, {"error": out[-300:]}
     res = {}
     try:
-        rc, out = sh(f"git apply {VERIF}/seeded/{seed}/patch.diff", cwd=wt)
+        rc, out = sh(f"git apply {VERIF}/{kind}/{seed}/patch.diff", cwd=wt)
         if rc != 0:
             return seed, {"error": "patch does not apply: " + out[-300:]}
         tdir = f"{VERIF}/harness/target-mut-cross-{seed}"
@@ -47,9 +47,11 @@ def one(seed, checks, threads):
 def main():
     ap = argparse.ArgumentParser()
     ap.add_argument("--seeds"); ap.add_argument("--checks"); ap.add_argument("--jobs", type=int, default=2)
-    ap.add_argument("--out", default=os.path.join(VERIF, "seeded", "CROSS.json"))
+    ap.add_argument("--dir", default="seeded", help="seeded (changes that break a property) or benign (changes that keep every property)")
+    ap.add_argument("--out")
     a = ap.parse_args()
-    seeds = a.seeds.split(",") if a.seeds else sorted(os.path.basename(d) for d in glob.glob(f"{VERIF}/seeded/C*") if os.path.exists(os.path.join(d, "patch.diff")))
+    a.out = a.out or os.path.join(VERIF, a.dir, "CROSS.json")
+    seeds = a.seeds.split(",") if a.seeds else sorted(os.path.basename(d) for d in glob.glob(f"{VERIF}/{a.dir}/C*") if os.path.exists(os.path.join(d, "patch.diff")))
     checks = a.checks.split(",") if a.checks else ALL
     os.makedirs("/tmp/cross", exist_ok=True)
     results = {}
@@ -57,7 +59,7 @@ def main():
         results = json.load(open(a.out))
     threads = max(4, 16 // a.jobs)
     with ThreadPoolExecutor(a.jobs) as ex:
-        for seed, res in ex.map(lambda s: one(s, checks, threads), seeds):
+        for seed, res in ex.map(lambda s: one(s, checks, threads, a.dir), seeds):
             results.setdefault(seed, {}).update(res)
             fires = [c for c, v in res.items() if isinstance(v, dict) and v.get("exit") == 1]
             incs = [c for c, v in res.items() if isinstance(v, dict) and v.get("exit") not in (0, 1)]
